@@ -486,6 +486,19 @@ func gotOf(blocks []casketfile.ServerBlock, mainName string) []wblock {
 }
 
 func normBlocks(bs []wblock) []wblock {
+	// blocks without a non-empty key (the only key written was "" or an unset
+	// variable) may or may not be handed out: not compared
+	var kept []wblock
+	for _, b := range bs {
+		named := false
+		for _, k := range b.Keys {
+			named = named || k != ""
+		}
+		if named {
+			kept = append(kept, b)
+		}
+	}
+	bs = kept
 	for i := range bs {
 		if bs[i].Keys == nil {
 			bs[i].Keys = []string{}
